@@ -28,6 +28,10 @@ RULES = {
     'AGG-TABLE': 'each public aggregation method hands over the aggregation class its name promises',
     'REDUCER-NAME': 'each aggregation class uses the pandas reducers its name promises (Count->count, Size->size, Sum->sum, ...)',
     'WINDOW-FIFO': 'window history deques are appended at the right and decayed from the left',
+    'DECAY-CONSERVES': 'rows leave the window history only into the decayed list: a frame popped from the left is appended to '
+                       'it (or is empty), and when the oldest frame is split the decayed head X[:k] and the kept tail X[k:] are '
+                       'complementary slices of the same frame at the same position; in diff_iloc the excess is rows - window, '
+                       'a popped frame reduces it by its length and a split consumes exactly the excess',
 }
 
 AGG = 'streamz.dataframe.aggregations'
@@ -616,8 +620,12 @@ def check_mirror(ctx, R):
 def _expand(r, text, levels=2):
     """substitute call symbols C<k> by the text of the call they name"""
     import re
+    # (texts are usually already stripped of spaces, so a symbol may directly follow a keyword: `dfinC0`, `notC13`)
+    pat = (r'(?:(?<![A-Za-z0-9_])|(?<=in)|(?<=not)|(?<=for)|(?<=if)|(?<=else)|(?<=and)|(?<=or)|(?<=is))'
+           r'C(\d+)(?![A-Za-z0-9_])')
     for _ in range(levels):
-        text = re.sub(r'\bC(\d+)\b', lambda m: src(r.calls[int(m.group(1))][0]).replace(' ', ''), text)
+        text = re.sub(pat, lambda m: src(r.calls[int(m.group(1))][0]).replace(' ', '') if int(m.group(1)) < len(r.calls)
+                      else m.group(0), text)
     return text
 
 
@@ -723,7 +731,7 @@ def check_accrue_decay(ctx, R):
                     cur = 'FIRST(C%d)' % k
                 # non-empty chunk <=> decayed
                 for c_, o in r.conds:
-                    t = _expand(r, c_.replace(' ', ''), 1)
+                    t = _expand(r, c_, 1).replace(' ', '')
                     neg = t.startswith('not')
                     core = t[3:].strip('()') if neg else t
                     if core.startswith('len(') and ('ELEM(%s' % D in _expand(r, core, 1) or 'ELEM(C' in core):
@@ -908,7 +916,7 @@ def check_window_fifo(ctx, R):
                 apps = [c for c, s_, l in r.calls if isinstance(c, ast.Call) and nf(c.func) == H + '.append']
                 has_rows = next((o for c, o in r.conds if c.replace(' ', '') in ('len(%s)>0' % params[1], 'len(%s)' % params[1])), None)
                 if has_rows is None:
-                    has_rows = next((o for c, o in r.conds if _expand(r, c.replace(' ', ''), 1) in (
+                    has_rows = next((o for c, o in r.conds if _expand(r, c, 1).replace(' ', '') in (
                         'len(%s)>0' % params[1], 'len(%s)' % params[1])), None)
                 okargs = all(len(c.args) == 1 and nf(c.args[0]) == params[1] for c in apps)
                 if len(apps) > 1 or not okargs or (has_rows is True and len(apps) != 1) or (has_rows is False and apps) \
@@ -929,3 +937,130 @@ def check_window_fifo(ctx, R):
         if name != 'diff_align':
             R.ob('WINDOW-FIFO', con, 'copies-history', bad_c is None, bad_c or '', ctx.where(fn, fn.node.lineno))
             R.ob('WINDOW-FIFO', con, 'appends-new', bad_a is None and bad_c is None, bad_a or bad_c or '', ctx.where(fn, fn.node.lineno))
+
+
+def check_decay_conserves(ctx, R):
+    """let-normal form of every path of diff_iloc / diff_loc / diff_align: conservation of rows between the history
+    (kept) and the decayed list (returned for on_old).  A violation loses or duplicates rows of the window."""
+    import re
+    from ..symexpr import SymEval, nf
+    M = ctx.model
+    for name in ('diff_iloc', 'diff_loc', 'diff_align'):
+        fn = M.function(AGG, name)
+        con = ctx.construct(fn)
+        params = fn.params()
+        paths = [r for r in SymEval(M, None, name_calls=True).run(fn) if not r.raised and r.ret is not None]
+        if not paths:
+            raise AnalysisError('%s: no returning path (unrecognised spelling)' % con)
+        bad_split, bad_pop = None, None
+        n_split = n_pop = 0
+        for r in paths:
+            ret = r.ret
+            if not (isinstance(ret, ast.Tuple) and len(ret.elts) == 2):
+                raise AnalysisError('%s: does not return a pair (unrecognised spelling)' % con)
+            if name == 'diff_align':
+                H, decayed = params[1], ret.elts[0]
+            else:
+                H, decayed = nf(ret.elts[0]), ret.elts[1]
+            if not isinstance(decayed, ast.List):
+                raise AnalysisError('%s: the decayed list is not built in this function (unrecognised spelling)' % con)
+            dec = [nf(e) for e in decayed.elts]
+            X = 'FIRST(%s)' % H
+            for k, (c, s_, l) in enumerate(r.calls):
+                # the oldest frame is replaced by its tail
+                if isinstance(c, ast.Assign) and nf(c.targets[0]) == H + '[0]':
+                    n_split += 1
+                    v = nf(c.value)
+                    m1 = re.fullmatch(re.escape(X) + r'(\.iloc)?\[(.+):\]', v)
+                    if not m1:
+                        bad_split = bad_split or 'the oldest frame is replaced by %s, not by a tail slice X[k:] of itself' % v[:60]
+                        continue
+                    via, K = m1.group(1) or '', m1.group(2)
+                    heads = {X + via + '[:%s]' % K}
+                    mk = re.fullmatch(r'C(\d+)', K)
+                    if mk:
+                        kc = nf(r.calls[int(mk.group(1))][0])
+                        m2 = re.fullmatch(r'len\((.+)\)', kc)
+                        if m2 and m2.group(1).startswith(X):
+                            heads.add(m2.group(1))          # k = len(<decayed head>): complementary by count
+                    if not (heads & set(dec)):
+                        bad_split = bad_split or ('the kept tail is %s but the decayed list holds %s: head and tail are not '
+                                                  'complementary slices of the oldest frame' % (v[:50], dec))
+                # a whole frame leaves the history
+                if isinstance(c, ast.Call) and isinstance(c.func, ast.Attribute) and c.func.attr == 'popleft' and nf(c.func.value) == H:
+                    n_pop += 1
+                    if 'C%d' % k in dec:
+                        continue
+                    empty = False
+                    for ct, o in r.conds:
+                        t = _expand(r, ct, 1).replace(' ', '')
+                        if t in ('notlen(%s)' % X, 'len(%s)==0' % X) and o:
+                            empty = True
+                        if t in ('len(%s)' % X, 'len(%s)>0' % X) and not o:
+                            empty = True
+                    if not empty:
+                        bad_pop = bad_pop or 'a frame is popped from the history without being handed to the decayed list'
+        R.ob('DECAY-CONSERVES', con, 'split-complementary', bad_split is None and (n_split > 0 or name == 'diff_expanding'),
+             bad_split or 'no path splits the oldest frame (unrecognised spelling)', ctx.where(fn, fn.node.lineno), None, n_split)
+        R.ob('DECAY-CONSERVES', con, 'popped-frames-decay', bad_pop is None, bad_pop or '', ctx.where(fn, fn.node.lineno), None, n_pop)
+
+
+def check_excess_accounting(ctx, R):
+    """diff_iloc, let-normal form: E = (sum of len over the history) - window drives the decay loop `while E > 0`;
+    a frame popped whole reduces E by that frame's length; a split takes exactly E rows and ends the loop.
+    Lemma (trusted): with these three facts the history keeps exactly min(rows, window) newest rows."""
+    import re
+    from ..symexpr import SymEval, nf
+    M = ctx.model
+    fn = M.function(AGG, 'diff_iloc')
+    con = ctx.construct(fn)
+    loops = [l for l in own_nodes(fn.node) if isinstance(l, ast.While)]
+    if len(loops) != 1 or not (isinstance(loops[0].test, ast.Compare) and len(loops[0].test.ops) == 1
+                               and isinstance(loops[0].test.ops[0], ast.Gt) and isinstance(loops[0].test.left, ast.Name)
+                               and src(loops[0].test.comparators[0]) == '0'):
+        raise AnalysisError('%s: the decay loop is not `while <excess> > 0` (unrecognised spelling)' % con)
+    var = loops[0].test.left.id
+    paths = [r for r in SymEval(M, None, name_calls=True).run(fn) if not r.raised and r.ret is not None]
+    bad = None
+    n = 0
+    for r in paths:
+        H = nf(r.ret.elts[0])
+        X = 'FIRST(%s)' % H
+        inloop = [(k, c, l) for k, (c, s_, l) in enumerate(r.calls) if l and l[-1][0].startswith('while ')]
+        if not inloop:
+            continue
+        n += 1
+        E0 = inloop[0][2][-1][0][len('while '):].replace(' ', '')
+        if not E0.endswith('>0'):
+            raise AnalysisError('%s: unrecognised decay-loop test %s' % (con, E0))
+        E0 = E0[:-2]
+        full = _expand(r, E0, 3)
+        Hx = _expand(r, H, 3)
+        forms = ['sum(map(len,%s))-window' % Hx]
+        ok_form = full in forms or re.fullmatch(r'sum\(\(?\[?len\((\w+)\)for\1in%s\]?\)?\)-window' % re.escape(Hx), full) is not None
+        if not ok_form:
+            if full.startswith(forms[0]) or 'window' not in full:
+                bad = bad or 'the excess is %s, not <rows in the history> - window' % full[:70]
+                continue
+            raise AnalysisError('%s: unrecognised spelling of the excess: %s' % (con, full[:80]))
+        final = nf(r.env.get(var)) if r.env.get(var) is not None else ''
+        pops = [k for k, c, l in inloop if isinstance(c, ast.Call) and isinstance(c.func, ast.Attribute) and c.func.attr == 'popleft'
+                and nf(c.func.value) == H]
+        splits = [c for k, c, l in inloop if isinstance(c, ast.Assign) and nf(c.targets[0]) == H + '[0]']
+        if pops and not splits:
+            suffix = final[len(E0) + 1:] if final.startswith(E0 + '-') else None
+            want = {'len(C%d)' % pops[0], 'len(%s)' % X}
+            if suffix is None or (suffix not in want and _expand(r, suffix, 1) not in want):
+                bad = bad or 'after a whole frame left the history the excess becomes %s, not excess - len(<that frame>)' % (
+                    _expand(r, final, 1)[:70])
+        elif splits and not pops:
+            m1 = re.fullmatch(re.escape(X) + r'\.iloc\[(.+):\]', nf(splits[0].value))
+            if m1 and m1.group(1) != E0:
+                bad = bad or 'the split keeps the tail from position %s, not from the excess %s' % (m1.group(1), E0)
+            ended = final == '0' or any(c_ == '<break>' for c_, o in r.conds)
+            if not ended:
+                bad = bad or 'after the split the decay loop goes on (excess is %s)' % final[:40]
+        elif splits and pops:
+            bad = bad or 'one iteration both pops and splits the oldest frame'
+    R.ob('DECAY-CONSERVES', con, 'excess-accounting', bad is None and n > 0, bad or 'no path enters the decay loop',
+         ctx.where(fn, loops[0].lineno), None, n)
